@@ -25,9 +25,9 @@ for p in props:
 m = {
     "version": 1,
     "setup_cmd": "./setup.sh",
-    "hooks": {"guard": "jsonrpsee_verif", "enable": "RUSTFLAGS='--cfg jsonrpsee_verif' (no hook is currently needed: Verus units read source text, Kani harnesses and replay probes use the public API)",
+    "hooks": {"guard": "jsonrpsee_verif", "enable": "RUSTFLAGS='--cfg jsonrpsee_verif' when building /verif/replay (setup.sh and vlib/replay.py do it): the only hook is Client::verif_table_sizes / RequestManager::verif_sizes, read by the C18 replay probes. Verus units read source text and skip cfg(jsonrpsee_verif) items; Kani harnesses use the public API.",
               "baseline_off_cmd": "cd /repo && cargo nextest run --workspace --no-fail-fast --test-threads 8 --offline || cargo test --workspace --no-fail-fast --offline",
-              "source_commits": [], "add_only": True},
+              "source_commits": ["3206f2c7161f27eb6e3e770a93b164bd91dc6d8c", "4fc893b7643a163f2b36bea614ff2b9bef590f40"], "add_only": True},
     "engines": [{"name": "vcheck", "path": "/verif/vcheck", "serves_properties": [c["property_id"] for c in checks],
                  "kind_free_text": "extract real functions from /repo -> splice contracts (units/*.vt) -> Verus (Z3) per unit -> named obligations -> replay probes on the real crates; Kani/CBMC harnesses on the real crates for loop-free integer code"}],
     "checks": checks,
